@@ -6,7 +6,7 @@ func (fr *Frame) preserveLocalsExcept(pre, post *State, eff *loopEffects) {
 	u := fr.u
 	for _, lc := range u.localCells {
 		for _, c := range fr.leafCellsAt(lc.typ, lc.addr) {
-			if eff.heapKeys[c.key] {
+			if eff.heapKeys[c.key] && !lc.writeOnce {
 				continue // the body writes this heap: value unknown at the head
 			}
 			vs := u.w.sortOf(c.typ)
